@@ -23,9 +23,12 @@ BOUNDS = {"quick": "LV(3,2) (40 arrays) x reduced bound grid (bounds None,-(k+1)
 VK_ALL = ["scalar", "npscalar", "flat", "colvec", "colvec_list", "ragged", "ragged_view", "bad_plus", "bad_shift", "bad_rows"]
 
 
+MEDIUM = [2, 0, 3, 1, 2, 4]
+
+
 def shards(tier):
     if tier == "quick":
-        return [{"lens": v} for v in dsl.lens_vectors(3, 2)]
+        return [{"lens": v} for v in dsl.lens_vectors(3, 2)] + [{"lens": MEDIUM, "medium": 1}]
     vs = list(dsl.lens_vectors(3, 3)) + [v for v in dsl.lens_vectors(4, 2) if len(v) == 4]
     return [{"lens": v} for v in vs]
 
@@ -92,8 +95,25 @@ def _col_selectors(m, tier):
     yield from _slices(m, tier)
 
 
+def _medium_cases(lens):
+    """a 6-row array: row lists of 4-6 entries in every kind of order (sorted, reversed, lowest-first/highest-last but shuffled inside,
+    with gaps), masks, slices; each with every value kind"""
+    import itertools as it
+    n = len(lens)
+    sels = [["l", list(p)] for p in ([0, 2, 1, 3], [1, 3, 2, 4], [0, 3, 1, 2, 4], [5, 0, 3, 1, 2, 4], [0, 1, 2, 3], [3, 2, 1, 0], [0, 2, 4], [4, 2, 0, 5],
+                                     [1, 2, 4, 3, 5], [-1, 0, -3, 1])]
+    sels += [["a", [0, 2, 1, 3]], ["m", [1, 0, 1, 1, 0, 1]], ["s", 1, 5, None], ["s", None, None, -2], ["s", 4, 0, -1]]
+    pairs = [["t", r, c] for r in (["l", [0, 2, 1, 3]], ["l", [4, 2, 3, 0]], ["s", 1, 5, None]) for c in (["s", 1, None, None], ["s", None, None, -1], ["s", None, 2, None])]
+    for sel in sels + pairs:
+        for vk in VK_ALL:
+            yield [lens, sel, vk]
+
+
 def cases(shard, tier):
     lens = shard["lens"]
+    if shard.get("medium"):
+        yield from _medium_cases(lens)
+        return
     n, m = len(lens), max(lens, default=0)
     sels = list(_row_selectors(n, tier))
     sels += [["t", ["s", None, None, None]], ["t", "E"]]
